@@ -217,8 +217,16 @@ def register_units(UNITS, gen):
             READ_GUARD[0] = True
         if t.orelse or t.finalbody:
             raise U("server handle: else/finally")
-        if not (len(t.body) == 1 and is_call_to(t.body[0], "protohandler.handle")):
-            raise U("server handle: try body is not protohandler.handle()")
+        # the local that holds the protocol object of THIS connection (whatever it is called): the one
+        # assigned from ProtocolMultiplexer.getProtocol(...)
+        pvars = [st.targets[0].id for st in body
+                 if isinstance(st, ast.Assign) and len(st.targets) == 1 and isinstance(st.targets[0], ast.Name)
+                 and isinstance(st.value, ast.Call) and dotted(st.value.func).endswith("getProtocol")]
+        if len(pvars) != 1:
+            raise U("server handle: cannot tell which local holds the protocol object")
+        pvar = pvars[0]
+        if not (len(t.body) == 1 and is_call_to(t.body[0], pvar + ".handle")):
+            raise U("server handle: try body is not <protocol>.handle()")
         if has_write_call(body[:-1]):
             raise U("server handle: writes before the try")
         out = []
@@ -241,7 +249,7 @@ def register_units(UNITS, gen):
                 if is_call_to(s, "GopherExceptions.log"):
                     la = s.value.args
                     if h.name and len(la) >= 2 and isinstance(la[0], ast.Name) and la[0].id == h.name \
-                            and isinstance(la[1], ast.Name) and la[1].id == "protohandler":
+                            and isinstance(la[1], ast.Name) and la[1].id == pvar:
                         logs = True
             out.append("(%s, %s)" % (f, "true" if logs else "false"))
         return "[" + "; ".join(out) + "]"
